@@ -23,7 +23,15 @@ pub const POSITIONS: &[&str] = &[
     "position fen 8/8/8/4k3/8/4K3/4P3/8 w - - 0 1",
 ];
 pub const DEPTHS: &[u8] = &[1, 2, 3, 4];
-pub const HORIZON_S: u64 = 120;
+pub const HORIZON_S: u64 = 300;
+
+/// Searches that store 10^5..10^6 table entries (position, depth in the quick tier; thorough = +1).
+pub const DEEP: &[(&str, u8)] = &[
+    ("position startpos", 7),
+    ("position fen r1bq1rk1/ppp2ppp/2np1n2/2b1p3/2B1P3/2PP1N2/PP3PPP/RNBQ1RK1 w - - 0 7", 5),
+    ("position fen 8/5pk1/6p1/R7/5P2/6P1/r4K2/8 w - - 0 40", 9),
+    ("position fen r3k2r/p1ppqpb1/bn2pnp1/3PN3/1p2P3/2N2Q1p/PPPBBPPP/R3K2R w KQkq - 0 1", 4),
+];
 
 pub fn units() -> Vec<Vec<String>> {
     let mut u = vec![vec!["ucinewgame".to_string()], vec!["go depth 2".to_string()]];
@@ -137,18 +145,26 @@ pub fn run(tier: &str, seed: u64, out: &str, exe: &str) {
                     Some(f) => {
                         if *f != segs {
                             let (ui, (a, b)) = f.iter().zip(segs.iter()).enumerate().find(|(_, (a, b))| a != b).unwrap();
+                            // a difference between two SEEDED key sets reproduces exactly and gets a
+                            // replay; a difference that only the unseeded run shows is just as much a
+                            // violation (the output depends on per-process randomness) but cannot be
+                            // replayed bit for bit, so it is reported without replay arguments
+                            let replayable = z.is_some();
                             rep.violation(
                                 format!("C13 history={} key-set-dependence", text(h, &us)),
                                 format!(
-                                    "history [{}]: output of unit {} differs between key set {:?} and key set {:?}: {:?} vs {:?}",
+                                    "history [{}]: output of unit {} differs between key set {:?} and {}: {:?} vs {:?}",
                                     text(h, &us),
                                     ui + 1,
                                     sd[0],
-                                    z,
+                                    match z {
+                                        Some(x) => format!("key set Some({})", x),
+                                        None => "an unseeded run (keys from thread_rng, as users run the engine)".to_string(),
+                                    },
                                     a,
                                     b
                                 ),
-                                vec!["c13-one".to_string(), "--history".into(), h.iter().map(|x| x.to_string()).collect::<Vec<_>>().join(","), "--k".into(), k.to_string()],
+                                if replayable { vec!["c13-one".to_string(), "--history".into(), h.iter().map(|x| x.to_string()).collect::<Vec<_>>().join(","), "--k".into(), k.to_string()] } else { vec![] },
                                 J::obj().set("run_index", i),
                             );
                             return None;
@@ -205,7 +221,69 @@ pub fn run(tier: &str, seed: u64, out: &str, exe: &str) {
     distinct_outputs.store(outs.len() as u64, Ordering::Relaxed);
     eprintln!("[C13] {} ucinewgame joins checked, {} distinct outputs ({:.1}s)", joins, outs.len(), rep.elapsed());
 
-    let n = runs.load(Ordering::Relaxed);
+
+    // ---- (c) deep searches: a few searches large enough to fill the table with 10^5..10^6
+    // entries (where a bounded or truncated-index table starts to collide), each under more key sets
+    let deep_units: Vec<Vec<String>> = DEEP.iter().map(|(p, d)| vec![p.to_string(), format!("go depth {}", if thorough { d + 1 } else { *d })]).collect();
+    let deep_seeds = seeds(seed ^ 0xDEE9, if thorough { 8 } else { 5 });
+    let mut deep_runs = 0u64;
+    if !rep.saturated() {
+        let mut dus = us.clone();
+        let base = dus.len();
+        dus.extend(deep_units.iter().cloned());
+        let mut dhs: Vec<Vec<usize>> = Vec::new();
+        for i in 0..deep_units.len() {
+            dhs.push(vec![base + i]);
+            dhs.push(vec![base + i, base + i]);
+            dhs.push(vec![base + i, 0, base + i]);
+        }
+        let jobs: Vec<(usize, usize)> = (0..dhs.len()).flat_map(|h| (0..deep_seeds.len()).map(move |z| (h, z))).collect();
+        let outs: Vec<Result<Vec<Vec<String>>, String>> = par_map(&jobs, |&(h, z)| run_once(exe, &dhs[h], &dus, deep_seeds[z]));
+        deep_runs = jobs.len() as u64;
+        for (hi, h) in dhs.iter().enumerate() {
+            let mine: Vec<(&Option<u64>, &Result<Vec<Vec<String>>, String>)> = jobs.iter().zip(outs.iter()).filter(|((jh, _), _)| *jh == hi).map(|((_, z), o)| (&deep_seeds[*z], o)).collect();
+            let first = match mine[0].1 {
+                Ok(f) => f,
+                Err(e) => {
+                    rep.violation(format!("C13 history={} crash", text(h, &dus)), format!("history [{}]: {}", text(h, &dus), e), vec![], J::Null);
+                    continue;
+                }
+            };
+            for (z, o) in &mine[1..] {
+                match o {
+                    Err(e) => rep.violation(format!("C13 history={} crash", text(h, &dus)), format!("history [{}] key set {:?}: {}", text(h, &dus), z, e), vec![], J::Null),
+                    Ok(segs) if segs != first => {
+                        let (ui, (a, b)) = first.iter().zip(segs.iter()).enumerate().find(|(_, (a, b))| a != b).unwrap();
+                        let diff = a.iter().zip(b.iter()).find(|(x, y)| x != y).map(|(x, y)| format!("{:?} vs {:?}", x, y)).unwrap_or_else(|| format!("{} vs {} lines", a.len(), b.len()));
+                        rep.violation(
+                            format!("C13 history={} key-set-dependence", text(h, &dus)),
+                            format!("history [{}]: output of unit {} differs between key set {:?} and key set {:?}: {}", text(h, &dus), ui + 1, deep_seeds[0], z, diff),
+                            if z.is_some() { vec!["c13-deep".to_string(), "--index".into(), hi.to_string(), "--tier".into(), tier.to_string()] } else { vec![] },
+                            J::Null,
+                        );
+                        break;
+                    }
+                    _ => {}
+                }
+            }
+            // the ucinewgame join on the deep histories: [X, ucinewgame, X] must end like [X]
+            if h.len() == 3 {
+                let single = jobs.iter().zip(outs.iter()).find(|((jh, z), _)| dhs[*jh] == vec![h[0]] && *z == 0).map(|(_, o)| o);
+                if let Some(Ok(alone)) = single {
+                    if first[2..] != alone[..] {
+                        rep.violation(
+                            format!("C13 history={} state-survives-ucinewgame", text(h, &dus)),
+                            format!("history [{}]: the search after ucinewgame prints {:?}.. but the same search on a fresh process prints {:?}..", text(h, &dus), first[2].iter().rev().take(2).collect::<Vec<_>>(), alone[0].iter().rev().take(2).collect::<Vec<_>>()),
+                            vec!["c13-deep".to_string(), "--index".into(), hi.to_string(), "--tier".into(), tier.to_string()],
+                            J::Null,
+                        );
+                    }
+                }
+            }
+        }
+        eprintln!("[C13] deep searches: {} histories x {} key sets ({:.1}s)", dhs.len(), deep_seeds.len(), rep.elapsed());
+    }
+    let n = runs.load(Ordering::Relaxed) + deep_runs;
     let sample_h = &hs[hs.len() - us.len() - 3];
     let cov = J::obj()
         .set("states", hs.len())
@@ -221,6 +299,7 @@ pub fn run(tier: &str, seed: u64, out: &str, exe: &str) {
         .set("key_set_seeds", sd.iter().map(|s| s.map(|x| x.to_string()).unwrap_or("unseeded (thread_rng)".into())).collect::<Vec<_>>())
         .set("process_runs", n)
         .set("ucinewgame_suffix_joins", joins)
+        .set("deep_searches", J::obj().set("units", deep_units.iter().map(|u| u.join(" ; ")).collect::<Vec<_>>()).set("histories", "[X], [X, X], [X, ucinewgame, X] for each unit X").set("key_sets_per_history", deep_seeds.len()).set("process_runs", deep_runs))
         .set("samples", vec![J::Str(text(sample_h, &us)), J::Str(text(&hs[hs.len() / 2], &us))])
         .set("exhaustive", true)
         .set("bound", "every history up to the listed number of units; key sets are instantiated, not enumerated");
@@ -241,7 +320,8 @@ pub fn replay(history: &str, k: usize, exe: &str, seed: u64) -> i32 {
     let sd = seeds(seed, k);
     let mut bad = false;
     let mut first: Option<Vec<Vec<String>>> = None;
-    for z in &sd {
+    // seeded key sets only: a replay must reproduce exactly
+    for z in sd.iter().filter(|z| z.is_some()) {
         match run_once(exe, &h, &us, *z) {
             Err(e) => {
                 println!("REPLAY-VIOLATION C13 [{}] key set {:?}: {}", text(&h, &us), z, e);
@@ -274,6 +354,57 @@ pub fn replay(history: &str, k: usize, exe: &str, seed: u64) -> i32 {
         1
     } else {
         println!("REPLAY-OK C13 [{}]", text(&h, &us));
+        0
+    }
+}
+
+/// Replay of one deep history (index into the list built by `run`): all seeded key sets must agree
+/// and, for [X, ucinewgame, X], the last unit must print what [X] prints on a fresh process.
+pub fn replay_deep(index: usize, tier: &str, exe: &str, seed: u64) -> i32 {
+    let thorough = tier == "thorough";
+    let us = units();
+    let deep_units: Vec<Vec<String>> = DEEP.iter().map(|(p, d)| vec![p.to_string(), format!("go depth {}", if thorough { d + 1 } else { *d })]).collect();
+    let mut dus = us.clone();
+    let base = dus.len();
+    dus.extend(deep_units.iter().cloned());
+    let i = index / 3;
+    let h: Vec<usize> = match index % 3 {
+        0 => vec![base + i],
+        1 => vec![base + i, base + i],
+        _ => vec![base + i, 0, base + i],
+    };
+    let sd = seeds(seed ^ 0xDEE9, if thorough { 8 } else { 5 });
+    let mut first: Option<Vec<Vec<String>>> = None;
+    let mut bad = false;
+    for z in sd.iter().filter(|z| z.is_some()) {
+        match run_once(exe, &h, &dus, *z) {
+            Err(e) => {
+                println!("REPLAY-VIOLATION C13 [{}]: {}", text(&h, &dus), e);
+                return 1;
+            }
+            Ok(s) => match &first {
+                None => first = Some(s),
+                Some(f) => {
+                    if *f != s && !bad {
+                        println!("REPLAY-VIOLATION C13 [{}] output depends on the key set", text(&h, &dus));
+                        bad = true;
+                    }
+                }
+            },
+        }
+    }
+    if h.len() == 3 {
+        if let (Some(f), Ok(alone)) = (&first, run_once(exe, &[h[0]], &dus, sd[0])) {
+            if f[2..] != alone[..] {
+                println!("REPLAY-VIOLATION C13 [{}] output after ucinewgame differs from a fresh process", text(&h, &dus));
+                bad = true;
+            }
+        }
+    }
+    if bad {
+        1
+    } else {
+        println!("REPLAY-OK C13 [{}]", text(&h, &dus));
         0
     }
 }
